@@ -112,6 +112,8 @@ class LedgerCheck:
         n = 40000 if tier == "quick" else 2000000
         k = 16 if tier == "quick" else 64
         specs = [{"seed": seed, "kind": "random", "shard": i, "count": n // k} for i in range(k)]
+        for i in range(4 if tier == "quick" else 16):
+            specs.append({"seed": seed, "kind": "resources", "shard": i, "count": 3000 if tier == "quick" else 40000})
         specs.append({"seed": seed, "kind": "exhaustive", "maxlen": 4 if tier == "quick" else 5})
         specs.append({"seed": seed, "kind": "e2e", "count": 60 if tier == "quick" else 1500})
         return specs
@@ -136,6 +138,10 @@ class LedgerCheck:
         self.spec = spec
         if spec["kind"] == "exhaustive":
             self._exhaustive(spec)
+        elif spec["kind"] == "resources":
+            rng = random.Random(seed_int("c04r", spec["seed"], spec["shard"]))
+            for h in range(spec["count"]):
+                self._resources_history(rng, h)
         else:
             rng = random.Random(seed_int("c04", spec["seed"], spec["shard"]))
             for h in range(spec["count"]):
@@ -523,6 +529,140 @@ class LedgerCheck:
             self.nontrivial.add(case_hash(hist))
         if len(self.samples) < 2 and len(hist) > 5:
             self.samples.append({"history": [list(map(str, x)) for x in hist]})
+
+    # -- direct histories on Resources objects (several allocations per computation, copies that
+    #    keep being used, every live object observed after every step) -----------------------------
+    def _resources_history(self, rng, h):
+        import copy
+        wl = self.wl
+        nn = rng.randint(1, 2)
+        cap = {}
+        for n in NAMES[:nn]:
+            for i in IDS[:rng.choice([1, 2, 3])]:
+                cap[(n, i)] = rng.choice([1, 2, 2, 3])
+        insts = sorted(cap)
+        keys = [self.mk_task(k) for k in range(3)] + [wl.WorkProfile(name="P0")]
+        hist = [("resources", sorted((f"{n}:{i}", q) for (n, i), q in cap.items()))]
+
+        def observe(r):
+            av = {ni: r.get_available_quantity(wl.Resource(name=ni[0], _id=ni[1])) for ni in insts}
+            al = {ni: sorted((c.name, q) for c, q in r.get_allocated_computation(wl.Resource(name=ni[0], _id=ni[1]))) for ni in insts}
+            by_name = {n: r.get_available_quantity(wl.Resource(name=n, _id="any")) for n in NAMES[:nn]}
+            alq = {n: r.get_allocated_quantity(wl.Resource(name=n, _id="any")) for n in NAMES[:nn]}
+            return {"avail": av, "alloc": al, "avail_by_name": by_name, "allocated_by_name": alq}
+
+        def consistent(o, label):
+            for ni in insts:
+                held = sum(q for _, q in o["alloc"][ni])
+                if o["avail"][ni] + held != cap[ni] or o["avail"][ni] < 0:
+                    self.bad("ledger_not_conserved", f"{label}: {ni[0]}:{ni[1]} available {o['avail'][ni]} + allocated {held} != total {cap[ni]}", hist)
+                    return False
+            for n in NAMES[:nn]:
+                tot = sum(q for (nm, _), q in cap.items() if nm == n)
+                s_av = sum(o["avail"][ni] for ni in insts if ni[0] == n)
+                if o["avail_by_name"][n] != s_av or o["allocated_by_name"][n] != tot - s_av:
+                    self.bad("getter_disagrees", f"{label}: {n}: by-name available {o['avail_by_name'][n]} / allocated {o['allocated_by_name'][n]}, instances say {s_av} of {tot}", hist)
+                    return False
+            return True
+        objs = [self.mk_resources(cap)]
+        kinds = set()
+        for step in range(rng.randint(3, 12)):
+            x = rng.randrange(len(objs))
+            r = objs[x]
+            before = [observe(o) for o in objs]
+            op = rng.choice(["allocate", "allocate", "allocate", "allocate_multiple", "deallocate", "deallocate", "copy", "deepcopy"])
+            label = f"step {step} {op} on object {x}"
+            try:
+                if op == "allocate":
+                    n = rng.choice(NAMES[:nn])
+                    i = rng.choice(["any", "any"] + [ii for (nm, ii) in insts if nm == n])
+                    k = rng.randrange(len(keys))
+                    q = rng.randint(1, 3)
+                    hist.append((op, x, f"{n}:{i}", keys[k].name, q))
+                    have = before[x]["avail_by_name"][n] if i == "any" else before[x]["avail"][(n, i)]
+                    try:
+                        r.allocate(wl.Resource(name=n, _id=i), keys[k], q)
+                        ok = True
+                    except ValueError:
+                        ok = False
+                    if ok != (have >= q):
+                        self.bad("allocation_disagrees", f"{label}: {q} of {n}:{i} {'accepted' if ok else 'refused'} with {have} available", hist)
+                    after = observe(r)
+                    if ok:
+                        kinds.add("allocate_again" if any(keys[k].name == c for ni in insts for c, _ in before[x]["alloc"][ni]) else "allocate")
+                        got = {ni: sum(qq for c, qq in after["alloc"][ni] if c == keys[k].name) - sum(qq for c, qq in before[x]["alloc"][ni] if c == keys[k].name) for ni in insts}
+                        if sum(got.values()) != q or any(v < 0 for v in got.values()) or any(v and (ni[0] != n or (i != "any" and ni[1] != i)) for ni, v in got.items()):
+                            self.bad("allocation_wrong_amount_or_place", f"{label}: ledger recorded {got}", hist)
+                    elif after != before[x]:
+                        self.bad("refused_request_changed_state", f"{label}", hist)
+                elif op == "allocate_multiple":
+                    k = rng.randrange(len(keys))
+                    req = {}
+                    for n in rng.sample(NAMES[:nn], rng.randint(1, nn)):
+                        req[(n, "any")] = rng.randint(1, 2)
+                    hist.append((op, x, sorted(req.items()), keys[k].name))
+                    fits = all(before[x]["avail_by_name"][n] >= q for (n, _), q in req.items())
+                    try:
+                        r.allocate_multiple(wl.Resources(resource_vector={wl.Resource(name=n, _id=i): q for (n, i), q in req.items()}, _logger=self.lg), keys[k])
+                        ok = True
+                    except ValueError:
+                        ok = False
+                    if ok != fits:
+                        self.bad("allocation_disagrees", f"{label}: {req} {'accepted' if ok else 'refused'}, available {before[x]['avail_by_name']}", hist)
+                    if not ok and observe(r) != before[x]:
+                        self.bad("refused_request_changed_state", f"{label}", hist)
+                    kinds.add("allocate_multiple")
+                elif op == "deallocate":
+                    k = rng.randrange(len(keys))
+                    held = {ni: sum(qq for c, qq in before[x]["alloc"][ni] if c == keys[k].name) for ni in insts}
+                    if not any(held.values()):
+                        continue  # whether an unknown computation is refused depends on earlier getter calls (defaultdict): not judged
+                    hist.append((op, x, keys[k].name))
+                    r.deallocate(keys[k])
+                    after = observe(r)
+                    for ni in insts:
+                        if after["avail"][ni] != before[x]["avail"][ni] + held[ni]:
+                            self.bad("deallocate_returns_wrong_amount", f"{label}: {ni[0]}:{ni[1]} available {before[x]['avail'][ni]} -> {after['avail'][ni]}, the computation held {held[ni]}", hist)
+                            break
+                        if any(c == keys[k].name for c, _ in after["alloc"][ni]):
+                            self.bad("deallocate_leaves_allocation", f"{label}: {ni}", hist)
+                            break
+                    kinds.add("deallocate")
+                else:
+                    hist.append((op, x))
+                    c = copy.copy(r) if op == "copy" else copy.deepcopy(r)
+                    co = observe(c)
+                    if op == "copy" and co != before[x]:
+                        self.bad("copy_differs_from_original", f"{label}: {before[x]} vs {co}", hist)
+                    if op == "deepcopy" and any(co["avail"][ni] != cap[ni] for ni in insts):
+                        self.bad("deepcopy_not_full", f"{label}: {co['avail']}", hist)
+                    if len(objs) < 4:
+                        objs.append(c)
+                        before.append(co)
+                    kinds.add(op)
+            except Exception as e:
+                self.bad(f"unexpected_exception:{type(e).__name__}", f"{label}: {type(e).__name__}: {e}", hist)
+                break
+            stop = False
+            for y, o in enumerate(objs):
+                now_o = observe(o)
+                if not consistent(now_o, f"{label}, object {y}"):
+                    stop = True
+                    break
+                if y != x and y < len(before) and now_o != before[y]:
+                    self.bad("copy_not_independent", f"{label}: object {y} changed: {before[y]} -> {now_o}", hist)
+                    stop = True
+                    break
+            self.bump("steps")
+            self.bump("resources_steps")
+            if stop:
+                break
+        self.bump("histories")
+        self.bump("resources_histories")
+        for k in kinds:
+            self.bump("rkind_" + k)
+        if len(kinds) >= 3:
+            self.nontrivial.add(case_hash(hist))
 
     # -- exhaustive sweep over a 9-op alphabet ----------------------------------------
     def _exhaustive(self, spec):
